@@ -11,7 +11,7 @@ cd /verif/sim || exit 2
 export CARGO_NET_OFFLINE=true
 export RUSTFLAGS="--cfg ts_rs_verif -C instrument-coverage"
 export CARGO_TARGET_DIR=/verif/target/cov
-cargo +nightly build --release --offline >/verif/target/cov-build.log 2>&1 || { tail -20 /verif/target/cov-build.log; echo "coverage build failed"; exit 2; }
+LLVM_PROFILE_FILE=/verif/target/cov-build-%p.profraw cargo +nightly build --release --offline >/verif/target/cov-build.log 2>&1 || { tail -20 /verif/target/cov-build.log; echo "coverage build failed"; exit 2; }
 work=/verif/target/cov-prof; rm -rf "$work"; mkdir -p "$work"
 bin=/verif/target/cov/release/tsrs-sim
 for p in C05 C06 C13 C17 C11 C03 C08 C04; do
